@@ -6,7 +6,10 @@
    is the trace of TileWalker.walk continuing from the saved progress identifier `old` (None = no progress
    file): EProc t = meta tile t handed to the worker pool, ERep lv id = progress report that would persist the
    identifier id; `procs` extracts the tiles; `geo_tree` is the tree induced by a grid, meta size, level list
-   and coverage predicate; `err_free tree` = no _walk call of the task raises (see finding C11-sliver). *)
+   and coverage predicate; `err_free tree` = the tree contains no raising _walk call (an abstract tree may; the tree
+   of a seed task on a well-formed grid never does: walk_completes, after the repair of finding C11-sliver);
+   `geo_wf g msx msy` = positive tile size, resolutions and meta size; `levels_wf g levels` = strictly increasing
+   valid levels (what LevelsList.for_grid produces). *)
 From Coq Require Import ZArith List Bool Arith.
 Import ListNotations.
 From MP Require Import Base Grid Seed Seed_proofs.
@@ -88,21 +91,30 @@ Proof. exact can_skip_below. Qed.
    handed over) is not proved either; the harness checks it on the implementation with exact arithmetic. *)
 Theorem walk_sound_partial :
   forall g msx msy cov levels root old t,
+    geo_wf g msx msy -> levels_wf g levels -> levels <> [] ->
     cov_monotone g msx msy cov ->
-    err_free (geo_tree g msx msy cov 0 (report_till levels) (S (length (ress g))) root levels 0 false) ->
     In t (procs (geo_walk g msx msy cov 0 levels root old)) ->
     cov (meta_bbox g msx msy t) <> 0.
-Proof. exact walk_sound_lemma. Qed.
+Proof. exact walk_sound_geo_lemma. Qed.
 
-(* ---- runs to completion?  (finding C11-sliver) *)
+(* ---- runs to completion (finding C11-sliver, repaired) *)
 
-(* "A walk over a well-formed grid with positive meta size, valid levels and a non-degenerate bbox coverage does not
-   raise" is false of the code as it is: the model (faithful to it) reaches a _walk call whose
-   get_affected_level_tiles raises GridError('Invalid BBOX').  The theorems above therefore carry err_free. *)
-Theorem walk_completes_refuted :
-  exists g msx msy c levels,
-    gx0 g < gx1 g /\ gy0 g < gy1 g /\ 0 < tw g /\ 0 < th g /\ (forall r, In r (ress g) -> 0 < r) /\
-    0 < msx /\ 0 < msy /\ (forall l, In l levels -> valid_level g l = true) /\
-    (let '(c0, c1, c2, c3) := c in c0 < c2 /\ c1 < c3) /\
-    In EErr (geo_walk g msx msy (cov_bboxes [c]) 0 levels c None).
-Proof. exact walk_completes_refuted_lemma. Qed.
+(* Every seed task on a grid with positive tile size, resolutions and meta size and strictly increasing valid levels
+   runs to completion whatever the coverage, the rectangle it starts from, skip_geoms_for_last_levels and the saved
+   progress: no _walk call raises (get_affected_level_tiles never yields an empty tile range, no level is out of
+   range).  Before the repair this was refuted by a coverage thinner than 2/10 pixel straddling a tile edge. *)
+Theorem walk_completes :
+  forall g msx msy cov skipk levels root old,
+    geo_wf g msx msy -> levels_wf g levels -> levels <> [] ->
+    ~ In EErr (geo_walk g msx msy cov skipk levels root old).
+Proof. exact walk_completes_lemma. Qed.
+
+(* resume_covers for seed tasks on a grid, with no assumption about exceptions *)
+Theorem resume_covers_geo :
+  forall g msx msy cov skipk levels root k j lv id,
+    geo_wf g msx msy -> levels_wf g levels -> levels <> [] ->
+    nth_error (geo_walk g msx msy cov skipk levels root None) j = Some (ERep lv id) -> (j < k)%nat ->
+    incl (procs (geo_walk g msx msy cov skipk levels root None))
+         (procs (firstn k (geo_walk g msx msy cov skipk levels root None)) ++
+          procs (geo_walk g msx msy cov skipk levels root id)).
+Proof. exact resume_covers_geo_lemma. Qed.
